@@ -214,6 +214,17 @@ def _generate(rng, tier):
         processes.append({"name": "early", "ops": [{"op": "raise", "serial": gen.serial}]})
     scenario = {"mode": "events", "initial_time": rng.choice([0, 0, 3, -6]),
                 "events": ["E%d" % i for i in range(gen.n_events)], "processes": processes}
+    if rng.random() < 0.2:
+        # chaining idiom: head.callbacks.append(tail.trigger); only one process waits for the tail
+        head = rng.choice(scenario["events"])
+        d1, d2 = gen.delay(), gen.delay()
+        if d1 is not None and d2 is not None:
+            scenario["events"].append("T0")
+            scenario["chains"] = [[head, "T0"]]
+            processes.append({"name": "cw", "ops": [{"op": "timeout", "d": d1},
+                                                    {"op": "wait", "ev": "T0"},
+                                                    {"op": "timeout", "d": d2}]})
+            gen.features.add("chained-trigger")
     defusers = [name for name in scenario["events"] if rng.random() < 0.2]
     if defusers:
         scenario["defusers"] = defusers
